@@ -85,7 +85,7 @@ def check_ok(out):
     return "Model checking completed. No error has been found." in out
 
 
-CORE_CONSTS = ["NS", "Users", "UCfg", "SrvMax", "Ports", "UsePool", "Idle", "WaitData", "SockT", "V6", "KF"]
+CORE_CONSTS = ["NS", "Users", "UCfg", "SrvMax", "Ports", "UsePool", "Idle", "WaitData", "SockT", "V6", "LateDrop", "KF"]
 
 
 def core_constants_module(name, base, cfg):
@@ -104,6 +104,7 @@ def core_constants_module(name, base, cfg):
     lines.append("c_WaitData == %d" % cfg["wait"])
     lines.append("c_SockT == %d" % cfg["sock"])
     lines.append("c_V6 == %s" % tla(bool(cfg.get("v6"))))
+    lines.append("c_LateDrop == %s" % tla(bool(cfg.get("slow_logout"))))
     lines.append("c_KF == %s" % tla(set(cfg.get("kf", []))))
     lines.append("====")
     cfgl = ["CONSTANTS"] + ["  %s <- c_%s" % (c, c) for c in CORE_CONSTS]
